@@ -3,7 +3,9 @@ import Verif.Proofs.Contracts
 # C26 — contract deployment, update and removal follow the lifecycle model
 
 Theorems about the spec machine `Verif.Model.Contracts` (for every state / every history, no bound).
-The machine also models one defect of the code that exists (`add_remove_same_tx_witness`).
+`add_remove_same_tx`: adding and removing a contract in one transaction commits with nothing deployed
+(the behaviour of /repo since the `fix:` commit for the former known finding
+`add-remove-same-tx-unreferenced-slabs`).
 -/
 namespace Verif.Properties.C26
 open Verif.Model.Contracts Verif.Proofs.Contracts
@@ -125,40 +127,54 @@ private def F0 : Facts :=
   { valid := fun _ => true, nameOk := fun _ => true, hasEnum := fun _ => false, isIface := fun _ => false,
     initFails := fun _ => false, compat := fun _ _ => true }
 
-/-- Witness (known finding `add-remove-same-tx-unreferenced-slabs`): adding a contract and removing it in
-the same transaction fails with the internal `UnreferencedRootSlabsError` at commit, where the lifecycle
-model wants the transaction to succeed with nothing deployed. -/
-theorem add_remove_same_tx_witness :
-    (runTx F0 [] [.add 0 0 0, .remove 0 0]).2 = ⟨[.done, .bool true], some .unreferenced⟩ := by
-  decide
+/-- Adding a contract and removing it again in the same transaction succeeds and leaves nothing deployed
+under that name, whatever else the account holds (before the fix of /repo the real transaction failed at
+commit with the internal `UnreferencedRootSlabsError`: known finding
+`add-remove-same-tx-unreferenced-slabs`, now fixed). -/
+theorem add_remove_same_tx (F : Facts) (s : Store) (a n src : Nat) (hfree : s.find (a, n) = none)
+    (hv : F.valid src = true) (hn : F.nameOk src = true) (hi : F.isIface src = true ∨ F.initFails src = false)
+    (he : F.hasEnum src = false) :
+    (runTx F s [.add a n src, .remove a n]).2 = ⟨[.done, .bool true], none⟩ ∧
+    (runTx F s [.add a n src, .remove a n]).1.find (a, n) = none := by
+  have hfind : ∀ e, (s.set (a, n) e).find (a, n) = some e := by
+    intro e; simp [Store.set, Store.find]
+  have hcond : (!F.isIface src && F.initFails src) = false := by
+    rcases hi with hi | hi <;> simp [hi]
+  have herase : ((s.set (a, n) ⟨src, !F.isIface src⟩).erase (a, n)).find (a, n) = none := by
+    cases hf : ((s.set (a, n) ⟨src, !F.isIface src⟩).erase (a, n)).find (a, n) with
+    | none => rfl
+    | some e =>
+      have hm := find_some_mem _ _ _ hf
+      have := not_mem_keys_erase (s.set (a, n) ⟨src, !F.isIface src⟩) (a, n)
+      exact absurd (List.mem_map.2 ⟨_, hm, rfl⟩) this
+  simp [runTx, runOps, step, hfree, hv, hn, hcond, hfind, he, herase]
 
-/-- The internal abort is raised only at commit, and only when a contract value created in the
-transaction was orphaned by a removal in the same transaction: outside that region a transaction aborts
-only at one of its operations (user-level abort) and otherwise commits. -/
-theorem unreferenced_only_when_orphaned_partial (F : Facts) :
+/-- A transaction aborts only at one of its operations: when every operation succeeds the transaction
+commits (no failure is raised at commit). -/
+theorem commit_never_aborts (F : Facts) :
     ∀ (ops : List Op) (t : TxState) (acc : List Obs),
-      (runOps F t ops acc).2.outcome = some .unreferenced → (runOps F t ops acc).1.orphaned = true
-  | [], t, acc, h => by
-    simp only [runOps] at h ⊢
-    split at h <;> simp_all
-  | op :: ops, t, acc, h => by
-    simp only [runOps] at h ⊢
-    split
+      (∀ e, (runOps F t ops acc).2.outcome = some e →
+        ∃ (pre : List Op) (op : Op) (post : List Op) (t' : TxState), ops = pre ++ op :: post ∧ step F t' op = .abort e)
+  | [], t, acc, e, h => by simp [runOps] at h
+  | op :: ops, t, acc, e, h => by
+    simp only [runOps] at h
+    split at h
     · rename_i t' o hs
-      simp only [hs] at h
-      exact unreferenced_only_when_orphaned_partial F ops t' _ h
-    · rename_i e hs
-      simp only [hs] at h
-      injection h with h
-      exact absurd h (step_abort_ne_unreferenced F t op e hs)
+      obtain ⟨pre, op', post, t'', heq, hst⟩ := commit_never_aborts F ops t' _ e h
+      exact ⟨op :: pre, op', post, t'', by simp [heq], hst⟩
+    · rename_i e' hs
+      simp at h
+      subst h
+      exact ⟨[], op, ops, t, rfl, hs⟩
 
 /-! ### non-vacuity -/
 
+example : runTx F0 [] [.add 0 0 0, .remove 0 0] = ([], ⟨[.done, .bool true], none⟩) := by decide
 example : (runHist F0 [] [[.add 0 0 0], [.get 0 0, .names 0]]).2 =
     [⟨[.done], none⟩, ⟨[.code (some 0), .names [0]], none⟩] := by decide
-example : step { F0 with hasEnum := fun _ => true } ⟨[((0, 0), ⟨5, true⟩)], [], [], false⟩ (.remove 0 0) = .abort .removal := by
+example : step { F0 with hasEnum := fun _ => true } ⟨[((0, 0), ⟨5, true⟩)], [], []⟩ (.remove 0 0) = .abort .removal := by
   rfl
-example : ∃ t', step { F0 with compat := fun _ _ => false } ⟨[((0, 0), ⟨1, true⟩)], [], [], false⟩ (.tryUpdate 0 0 2) =
+example : ∃ t', step { F0 with compat := fun _ _ => false } ⟨[((0, 0), ⟨1, true⟩)], [], []⟩ (.tryUpdate 0 0 2) =
     .ok (t', .bool false) := ⟨_, rfl⟩
 
 end Verif.Properties.C26
